@@ -512,6 +512,43 @@ static void deep_nest(int levels, int catcher, int exc) {
   vh_count("deep_nests");
 }
 
+
+/* every ordered pair (thrown kind, filter kind) over all built-in exception kinds and four user-defined ones:
+   the filtered handler runs iff the two are the same kind, otherwise the exception goes on to the enclosing handler */
+static void kind_matrix(void) {
+  static var UK[4];
+  if (UK[0] == NULL) {
+    UK[0] = new_root(Type, $S("UserError"), $I(0)); UK[1] = new_root(Type, $S("UserErrorB"), $I(0));
+    UK[2] = new_root(Type, $S("KeyErr"), $I(0)); UK[3] = new_root(Type, $S("keyerror"), $I(0));
+  }
+  var ALL[] = { TypeError, KeyError, ValueError, IOError, ClassError, IndexOutOfBoundsError, ResourceError, FormatError, BusyError,
+    OutOfMemoryError, SegmentationError, ProgramAbortedError, DivisionByZeroError, IllegalInstructionError, ProgramInterruptedError,
+    ProgramTerminationError, UK[0], UK[1], UK[2], UK[3] };
+  enum { NALL = sizeof ALL / sizeof ALL[0] };
+  for (int k = 0; k < NALL; k++) {
+    for (int f = 0; f < NALL; f++) {
+      volatile int inner = 0, outer = 0, after_inner = 0;
+      volatile var bound_inner = NULL, bound_outer = NULL;
+      size_t d0 = len(current(Exception));
+      try {
+        try { throw(ALL[k], "kind %i thrown under filter %i", $I(k), $I(f)); }
+        catch (e in ALL[f]) { inner++; bound_inner = e; }
+        after_inner++;
+      } catch (e2) { outer++; bound_outer = e2; }
+      vh_evals(3);
+      if (k == f) {
+        if (inner != 1 || outer != 0 || after_inner != 1) { vh_violation("C07:kinds:matching-filter-did-not-handle", "throw %s under filter %s: inner %d outer %d", c_str(ALL[k]), c_str(ALL[f]), inner, outer); }
+        else if (bound_inner != ALL[k]) { vh_violation("C07:kinds:bound-object-is-not-the-thrown-one", "throw %s: the handler was given %s", c_str(ALL[k]), c_str(bound_inner)); }
+      } else {
+        if (inner != 0) { vh_violation("C07:kinds:handler-ran-for-a-kind-its-filter-does-not-name", "throw %s (kind %d) was handled by a handler filtered on %s (kind %d)", c_str(ALL[k]), k, c_str(ALL[f]), f); }
+        else if (outer != 1 || bound_outer != ALL[k]) { vh_violation("C07:kinds:non-matching-exception-did-not-reach-the-enclosing-handler", "throw %s under filter %s: outer handler ran %d times", c_str(ALL[k]), c_str(ALL[f]), outer); }
+      }
+      if (len(current(Exception)) != d0) { vh_violation("C07:kinds:depth-not-restored", "depth %zu before, %zu after", d0, len(current(Exception))); }
+      vh_count("kind_pairs");
+    }
+  }
+}
+
 static void fixed(void) {
   /* the canonical shape: inner handles, outer completes normally */
   nnodes = 0;
@@ -547,6 +584,9 @@ static void fixed(void) {
   deep_nest(2000, 0, 2);
   deep_nest(2000, 1999, 3);
   deep_nest(1000, -1, 0);   /* nobody catches: escapes through 1000 levels */
+  vh.oplen = 0; vh.oplog[0] = 0; vh.nops = 0;
+  vh_op("kind matrix: every (thrown, filter) pair over 16 built-in and 4 user-defined kinds");
+  kind_matrix();
 }
 
 int main(int argc, char** argv) {
